@@ -97,6 +97,9 @@ where
       if self.task_handler.is_closed() {
         let delay = (self.duration_selector)(&value);
         if self.edge.leading {
+          // the item that opens the window is emitted on the leading edge;
+          // it must not be emitted again on the trailing edge
+          self.trailing_value.rc_deref_mut().take();
           self.observer.next(value)
         }
         let task = OnceTask::new(
